@@ -1371,12 +1371,11 @@ theorem saneClasses_drive : SaneClasses Drive.cc := by
       cases hh : c.isAlpha with
       | false => rfl
       | true => have := r3.mp hh; omega
+    have hx : ¬ c.toNat ∈ Drive.extraAlpha := by
+      simp only [Drive.extraAlpha, List.mem_cons, List.not_mem_nil, or_false]
+      omega
     refine ⟨by simp [Drive.cc, Drive.rustIsAlphanumeric, Char.isAlphanum, hd], ?_⟩
-    simp only [Drive.cc, Drive.rustIsAlphabetic, ha, Bool.false_or, Bool.or_eq_false_iff]
-    refine ⟨⟨?_, ?_⟩, ?_⟩ <;>
-      (cases hb : (c == _) with
-       | false => rfl
-       | true => have := char_beq_toNat hb; simp at this; omega)
+    simp [Drive.cc, Drive.rustIsAlphabetic, ha, hx]
   · intro c h
     obtain ⟨r1, r2, r3, r4⟩ := char_ranges c
     simp only [Drive.cc, Drive.rustIsWhitespace, Bool.or_eq_true, Bool.and_eq_true, decide_eq_true_eq, beq_iff_eq] at h
@@ -1388,13 +1387,15 @@ theorem saneClasses_drive : SaneClasses Drive.cc := by
       cases hh : c.isDigit with
       | false => rfl
       | true => have := r4.mp hh; omega
+    have hx : ¬ c.toNat ∈ Drive.extraAlpha := by
+      simp only [Drive.extraAlpha, List.mem_cons, List.not_mem_nil, or_false]
+      omega
+    have hy : ¬ c.toNat ∈ Drive.extraNum := by
+      simp only [Drive.extraNum, List.mem_cons, List.not_mem_nil, or_false]
+      omega
     have hne : ∀ k : Char, c.toNat ≠ k.toNat → c ≠ k := fun k hk he => hk (by rw [he])
     refine ⟨?_, ?_, ?_, ?_, ?_, ?_⟩
-    · simp only [Drive.cc, Drive.rustIsAlphanumeric, Char.isAlphanum, ha, hd, Bool.false_or, Bool.or_eq_false_iff]
-      refine ⟨⟨⟨⟨?_, ?_⟩, ?_⟩, ?_⟩, ?_⟩ <;>
-        (cases hb : (c == _) with
-         | false => rfl
-         | true => have := char_beq_toNat hb; simp at this; omega)
+    · simp [Drive.cc, Drive.rustIsAlphanumeric, Char.isAlphanum, ha, hd, hx, hy]
     all_goals (apply hne; simp; omega)
 
 end Rbpf
